@@ -310,3 +310,49 @@ def r_multimap(cx):
             cx.ob("R-MULTIMAP", "%s/extend%d" % (name, k), True,
                   "%s extends the list under a key (entry().or_insert*().push())" % name, cx.where(f.term(bb)["span"]))
     cx.count("R-MULTIMAP", "sites", n)
+
+
+# ---------------------------------------------------------------------------------------------------------------------
+# R-FULL-RANGE (C08): unit conversion of Gravsoft grid values covers every value
+
+@rule("R-FULL-RANGE", ["C08"])
+def r_full_range(cx):
+    """Each loop in normalize_gravsoft_grid_values that rewrites grid values (arc seconds to radians and band swap,
+    mm/year to m/year) ranges over all of them: 0..grid.len(). A loop starting later or ending earlier leaves values
+    in the file's unit at one end of the grid (the north-western corner node is the first value of the file)."""
+    name = "grid::normalize_gravsoft_grid_values"
+    f = cx.f.fn(name)
+    n = 0
+    for lp in f.loops():
+        # does the loop body write elements of the grid (argument 2)?
+        writes = False
+        for bb, i, s in f.all_stmts():
+            if bb in lp.body and s["k"] == "assign" and s["place"]["p"] and s["place"]["p"][0] == "deref" and \
+                    s["place"]["l"] == 2:
+                writes = True
+        for bb, t in f.calls():
+            if bb in lp.body and (f.callee(t) or "").endswith("::swap"):
+                writes = True
+        if not writes or f.innermost_loop(lp.header) is not lp:
+            continue
+        n += 1
+        x = pertuple.iterator_entry_value(f, lp)
+        ok = False
+        why = "its iterator is not a range"
+        if x is not None and x[0] == "call" and isinstance(x[1], str) and x[1].endswith("into_iter"):
+            r = mir.strip_refs(x[2][0])
+            if r[0] == "agg" and isinstance(r[1], tuple) and "Range" in str(r[1]) and len(r[2]) == 2:
+                lo, hi = r[2]
+                lo_ok = lo[0] == "const" and lo[2] == 0
+                hi_s = mir.strip_refs(hi)
+                hi_ok = (hi_s[0] == "un" and hi_s[1] == "PtrMetadata" and mir.strip_refs(hi_s[2]) in (("arg", 2), ("proj", ("arg", 2), "deref"))) or \
+                    (hi_s[0] == "call" and isinstance(hi_s[1], str) and hi_s[1].endswith("::len") and
+                     mir.strip_refs(hi_s[2][0]) in (("arg", 2), ("proj", ("arg", 2), "deref")))
+                ok = lo_ok and hi_ok
+                why = ("it starts at %s, not at 0" % mir.show(lo)[:30]) if not lo_ok else (
+                    "it does not end at grid.len()" if not hi_ok else "")
+        cx.ob("R-FULL-RANGE", "normalize/loop%d" % (n - 1), ok,
+              "the conversion loop ranges over 0..grid.len()" if ok else
+              "a conversion loop of normalize_gravsoft_grid_values does not cover all grid values: %s" % why,
+              cx.where(f.term(lp.header)["span"]))
+    cx.count("R-FULL-RANGE", "conversion_loops", n)
